@@ -105,7 +105,13 @@ JudgeWalk(j) ==
      \cup If(\E q, q2 \in DOMAIN del : q # q2 /\ del[q].c = del[q2].c, "C14:delivered-twice")
      \cup If(\E c \in want : \A q \in DOMAIN del : del[q].c # c, "C14:intersection-not-delivered")
 
-Judge(j) == IF j.kind = "walk" THEN JudgeWalk(j) ELSE JudgeAgg(j)
+\* kind "session": a history of calculate() calls on shared cubes / function objects; same[q][k] says whether
+\* the k-th output of call q is bit-identical to the output of that aggregate computed alone on fresh objects
+JudgeSession(j) ==
+  If(\E q \in DOMAIN j.calls : \E k \in DOMAIN j.calls[q].same : ~j.calls[q].same[k], "C17:result-depends-on-history")
+  \cup If(~j.memsame, "C17:argument-changed")
+
+Judge(j) == IF j.kind = "walk" THEN JudgeWalk(j) ELSE IF j.kind = "session" THEN JudgeSession(j) ELSE JudgeAgg(j)
 
 \* expected exact values of the cells whose value was judged different (for the numeric re-check)
 EmitExpected(j) ==
